@@ -33,18 +33,28 @@ static int teq (struct yaep_tree_node *x, struct yaep_tree_node *y, int depth)
     default: return 1;
     }
 }
+/* a grammar with one very long rule (grows the rule storage beyond the first object-stack segment) */
+static int lr_t, lr_r, lr_len; static const char *lr_rhs[130];
+static const char *lr_term (int *code) { if (lr_t) return NULL; lr_t = 1; *code = 'a'; return "a"; }
+static const char *lr_rule (const char ***rhs, const char **an, int *cost, int **tr) { int i; if (lr_r) return NULL; lr_r = 1; for (i = 0; i < lr_len; i++) lr_rhs[i] = "a"; lr_rhs[lr_len] = NULL; *rhs = lr_rhs; *an = NULL; *cost = 0; *tr = NULL; return "S"; }
 static int tcb; static void termcb (struct yaep_term *t) { (void) t; tcb++; }
 
 void harness (void)
 {
   int how = (int) sx_param ("how", 0), conf, i, drc, xrc, m; struct out A, B; struct grammar *g; void *y;
-  struct pconf c; int use_default_alloc = (int) sx_param ("default_alloc", 0);
+  struct pconf c; int use_default_alloc = (int) sx_param ("default_alloc", 0);   /* 0 caller's allocator, 1 default allocator, 2 NULL parse_alloc with non-NULL parse_free (must be refused) */
   p_setup ();
   conf = sx_choice ("conf", 24);
   c.la = conf % 3; c.one = (conf / 3) % 2; c.cost = (conf / 6) % 2; c.rec = (conf / 12) % 2;
   m = c.rec ? 1 + sx_choice ("match", 3) : 3;
   g = yaep_create_grammar (); y = xx_create (); sx_assume (g != NULL && y != NULL);
   sx_assert (yaep_error_code (g) == xx_error_code (y), "same initial error code");
+  if (sx_param ("long_first", 0))
+    { /* an earlier definition with a very long rule, then the object is redefined */
+      int r1, r2; lr_len = (int) sx_param ("long_first", 0);
+      lr_t = lr_r = 0; r1 = yaep_read_grammar (g, 1, lr_term, lr_rule); lr_t = lr_r = 0; r2 = xx_read_grammar (y, 1, lr_term, lr_rule);
+      sx_assert (r1 == r2, "first definition returns the same code through both interfaces");
+    }
   /* definition: 0 callbacks, 1 description, 2 defective (repeated code), 3 description with syntax error */
   if (how == 2) G.sym[1].code = G.sym[0].code;
   if (how == 0 || how == 2) { drc = g_define (g, 1); g_rewind (); xrc = xx_read_grammar (y, 1, g_read_terminal, g_read_rule); }
@@ -60,9 +70,9 @@ void harness (void)
   sx_assert (yaep_set_recovery_match (g, m) == xx_set_recovery_match (y, m), "setter returns agree (recovery match)");
   sx_assert (yaep_set_debug_level (g, 0) == xx_set_debug_level (y, 0), "setter returns agree (debug)");
   p_rd = 0; p_nerr = 0; A.root = NULL; A.amb = 0;
-  A.rc = yaep_parse (g, p_read_token, p_syntax_error, use_default_alloc ? NULL : p_alloc, use_default_alloc ? NULL : p_free, &A.root, &A.amb); grab (&A);
+  A.rc = yaep_parse (g, p_read_token, p_syntax_error, use_default_alloc ? NULL : p_alloc, use_default_alloc == 1 ? NULL : p_free, &A.root, &A.amb); grab (&A);
   p_rd = 0; p_nerr = 0; B.root = NULL; B.amb = 0;
-  B.rc = xx_parse (y, p_read_token, p_syntax_error, use_default_alloc ? NULL : p_alloc, use_default_alloc ? NULL : p_free, &B.root, &B.amb); grab (&B);
+  B.rc = xx_parse (y, p_read_token, p_syntax_error, use_default_alloc ? NULL : p_alloc, use_default_alloc == 1 ? NULL : p_free, &B.root, &B.amb); grab (&B);
   sx_observe ("rc", A.rc); sx_observe ("xrc", B.rc); sx_observe ("nerr", A.nerr);
   sx_assert (A.rc == B.rc, "parse returns the same code through both interfaces");
   sx_assert ((A.amb != 0) == (B.amb != 0), "same ambiguity flag");
@@ -76,8 +86,8 @@ void harness (void)
   {
     int ca, cb; long l0, l1, l2;
     l0 = sx_live_heap_blocks ();
-    tcb = 0; yaep_free_tree (A.root, use_default_alloc ? NULL : p_free, termcb); ca = tcb; l1 = sx_live_heap_blocks ();
-    tcb = 0; xx_free_tree (B.root, use_default_alloc ? NULL : p_free, termcb); cb = tcb; l2 = sx_live_heap_blocks ();
+    tcb = 0; yaep_free_tree (A.root, use_default_alloc == 1 ? NULL : p_free, termcb); ca = tcb; l1 = sx_live_heap_blocks ();
+    tcb = 0; xx_free_tree (B.root, use_default_alloc == 1 ? NULL : p_free, termcb); cb = tcb; l2 = sx_live_heap_blocks ();
     sx_observe ("released", l0 - l1);
     sx_assert (ca == cb, "free_tree calls the terminal callback equally often");
     sx_assert (l0 - l1 == l1 - l2, "yaep::free_tree releases exactly as many blocks as yaep_free_tree");
